@@ -190,7 +190,7 @@ func (fr *Frame) instr(ins ssa.Instruction, st *State, g *Term) *Term {
 		es := c.sortOf(el)
 		en := c.elemName(es)
 		zero := mk(ArrSort(SInt, es), fmt.Sprintf("((as const %s) %s)", ArrSort(SInt, es), c.zeroTerm(el).S))
-		c.heapSet(st, en, tStore(c.heapGet(st, en), r, zero))
+		c.heapSet(st, en, c.sto(c.heapGet(st, en), r, zero))
 		fr.vals[x] = tv(mk(SSlice, fmt.Sprintf("(mk-slice %s 0 %s)", r.S, n.S)))
 		return ng
 	case *ssa.MakeMap:
@@ -668,7 +668,7 @@ func (fr *Frame) sliceOp(x *ssa.Slice, st *State, g *Term) *Term {
 		es := c.sortOf(arr.Elem())
 		r := c.allocRef(st, g, "arrslice."+x.Name())
 		en := c.elemName(es)
-		c.heapSet(st, en, tStore(c.heapGet(st, en), r, av))
+		c.heapSet(st, en, c.sto(c.heapGet(st, en), r, av))
 		c.warn("slice of array %s at %s: aliasing with the array is not modelled (copy semantics)", x.Name(), c.posOf(x.Pos()))
 		ng := fr.mayPanicIfNew(g, mk(SBool, fmt.Sprintf("(or (< %s 0) (> %s %s) (> %s %d))", lo.S, lo.S, hi.S, hi.S, arr.Len())), st, "slice", x.Pos(), "slice bounds out of range")
 		fr.vals[x] = tv(c.define(x.Name(), mk(SSlice, fmt.Sprintf("(mk-slice %s %s (- %s %s))", r.S, lo.S, hi.S, lo.S))))
